@@ -20,6 +20,7 @@ func init() {
 			c.run("C04-R2", "GUARD-DOM: decoder carries a lone leader, rejects unknown codes, returns the unread tail", c04R2)
 			c.run("C04-R3", "LITERAL: built-in tables and the table builder", c04R3)
 			c.run("C04-R4", "SIBLING/WHO-CALLS: escaper placement and connection writers", c04R4)
+			c.run("C04-R6", "GUARD-DOM: the length announced in a binary frame header is the length of the bytes written after it", c04FrameLen)
 			c.run("C04-R5", "GUARD-DOM: every exit of encoder/decoder accounts for all input; the stream wrappers pass only coded bytes", c04R5)
 		})
 }
@@ -152,6 +153,45 @@ func c04R2(c *Ctx) {
 			}
 		}
 	}
+	// every byte the decoder outputs is either the input byte (no leader) or the table entry for the code
+	nst := 0
+	eachInstr(f, func(in ssa.Instruction) {
+		st, ok := in.(*ssa.Store)
+		if !ok {
+			return
+		}
+		ia, ok := st.Addr.(*ssa.IndexAddr)
+		if !ok {
+			return
+		}
+		isOut := false
+		for _, l := range origins(ia.X, originOpts{}) {
+			if isVar("dst")(l.V) {
+				isOut = true
+			}
+			if _, mk := l.V.(*ssa.MakeSlice); mk {
+				isOut = true
+			}
+		}
+		if !isOut {
+			return
+		}
+		nst++
+		good := false
+		if u, ok := st.Val.(*ssa.UnOp); ok && u.Op == token.MUL {
+			if inner, ok := u.X.(*ssa.UnOp); ok && inner.Op == token.MUL {
+				if ia2, ok := inner.X.(*ssa.IndexAddr); ok && isFieldLoad("unescapeCodes")(ia2.X) {
+					good = true // *table.unescapeCodes[code]
+				}
+			}
+			if ia2, ok := u.X.(*ssa.IndexAddr); ok && isVar("data")(ia2.X) {
+				// raw input byte: only when it is not the leader
+				good = factCmp(factsAt(st.Block()), token.NEQ, isValue(st.Val), isConstIntV(leader))
+			}
+		}
+		c.check(good, "unescapeData/output<-table-or-raw", c.ipos(st), "a decoded byte is the table's entry for the code, or the raw non-leader input byte", "the decoder outputs a byte that is neither the table entry nor a raw non-leader byte (an escape pair is guessed instead of looked up)")
+	})
+	c.check(nst == 2, "unescapeData/two-output-stores", c.pos(f.Pos()), "exactly raw | table entry are written", "unexpected set of output stores in the decoder")
 	c.check(lone, "unescapeData/lone-leader-carried", c.pos(f.Pos()), "a leader that is the last byte is returned as 'remaining', not decoded", "a leader at the end of the input is decoded with the next buffer's byte missing")
 	c.check(full, "unescapeData/tail-when-full", c.pos(f.Pos()), "when the destination is full the unread tail is returned", "bytes after a full destination are dropped")
 	// unknown code: shared obligation
@@ -552,7 +592,7 @@ func classifyPayload(c *Ctx, f *ssa.Function, v ssa.Value) string {
 			}
 		case call != nil && calleeID(&call.Call) == "trzsz.escapeData":
 			cls = "escaped data"
-		case func() bool { _, ok := constString(l.V); return ok }():
+		case func() bool { k, ok := constString(l.V); return ok && strings.HasPrefix(k, "#") }():
 			cls = "a constant protocol fragment"
 		case isFieldLoad("Newline")(l.V):
 			cls = "the negotiated newline"
@@ -685,4 +725,67 @@ func c04R5(c *Ctx) {
 		}
 		c.check(good, "escapeReader.Read/count-from-unescape", c.ipos(r), "the count returned is the number of bytes unescapeData produced into p", "the stream unescaper reports bytes that did not come from unescapeData")
 	})
+}
+
+// c04FrameLen: '#DATA:<n>' announces exactly the bytes that follow, at every place that builds a binary frame.
+func c04FrameLen(c *Ctx) {
+	// (a) the framer: Itoa(len(data)) then data
+	d := c.fn("sendDataWriter.deliver")
+	okA := false
+	for _, ci := range callsIn(d, idIs("strconv.Itoa")) {
+		if isLenOf(ci.Common().Args[0], isVar("data")) {
+			okA = true
+		}
+	}
+	c.check(okA, "deliver/header=len(data)", c.pos(d.Pos()), "the framer announces len(data) and writes data", "the framer's header does not announce len(data)")
+	// (b) the re-split path: deliver(data[index:next], n, false) with next = index + n
+	sd := c.fn("trzszTransfer.pipelineSendData$2")
+	n := 0
+	for _, ci := range callsIn(sd, anyID) {
+		if closureInCell(ci.Common().Value) == nil && calleeID(ci.Common()) != "dynamic" {
+			continue
+		}
+		args := ci.Common().Args
+		if len(args) != 3 {
+			continue
+		}
+		sl, isSl := strip(args[0]).(*ssa.Slice)
+		if !isSl {
+			// whole pre-framed buffer: length = len(data.data)
+			continue
+		}
+		n++
+		good := false
+		if b, ok := sl.High.(*ssa.BinOp); ok && b.Op == token.ADD && sl.Low != nil {
+			if (sameValue(b.X, sl.Low) && sameValue(b.Y, args[1])) || (sameValue(b.Y, sl.Low) && sameValue(b.X, args[1])) {
+				good = true
+			}
+		}
+		c.check(good, "pipelineSendData/split-length=slice-length", c.ipos(ci), "a re-split packet announces exactly the bytes of its slice (next = index + n)", "a re-split packet's announced length differs from the slice that is written: the receiver's framing breaks")
+		// and the cursor continues at that same end
+		adv := false
+		eachInstr(sd, func(in ssa.Instruction) {
+			if st, ok := in.(*ssa.Store); ok {
+				if nm, _ := fieldAddrName(st.Addr); nm == "trzszData.index" && sameValue(st.Val, sl.High) {
+					adv = true
+				}
+			}
+		})
+		c.check(adv, "pipelineSendData/split-continues-at-end", c.ipos(ci), "the next packet starts where this one ended", "the next packet does not start where the previous one ended")
+	}
+	if n != 1 {
+		c.undecided("pipelineSendData/split", "expected one re-split delivery")
+	}
+	// (c) sendDataV2 writes the header with its length parameter and then the buffer parameter
+	v2 := c.fn("trzszTransfer.sendDataV2")
+	okC := false
+	for _, ci := range callsIn(v2, idIs("fmt.Sprintf")) {
+		if fm, _ := constString(ci.Common().Args[0]); strings.HasPrefix(fm, "#DATA:%d") {
+			el, ok := sliceElems(ci.Common().Args[1])
+			if ok && len(el) >= 1 && isVar("length")(strip(el[0].V)) {
+				okC = true
+			}
+		}
+	}
+	c.check(okC, "sendDataV2/header=length", c.pos(v2.Pos()), "the binary header carries the length handed in with the buffer", "sendDataV2's header does not carry its length parameter")
 }
